@@ -17,6 +17,7 @@
 import PygModel.Calendar
 import PygProofs.Lemmas.CalendarLemmas
 import PygProofs.Lemmas.CalendarEdge
+import PygProofs.Lemmas.CalendarObj
 
 namespace Pyg.Props.C05
 open Pyg Pyg.Calendar
@@ -807,5 +808,186 @@ example :
     let c := mkCalT ymKey { hol := some [737425 * DAYUS + 34200000000, 737426 * DAYUS + (DAYUS - 1)], weekend := some [5, 6],
                             t0 := some (737394 * DAYUS + 32400000000), t1 := some (737456 * DAYUS + 63000000000) }
     c.hol = [737425, 737426] ∧ c.t0 = 737394 ∧ c.t1 = 737456 ∧ c.isB 737425 = false ∧ c.isB 737427 = true := by decide
+
+/-! ### round k3: the converse of `drange_1b` (KeyError), and `Calendar.clock` -/
+
+/-- "`s` is a key of the business-day table": a business day of the calendar's range -/
+def InTable (c : Cal) (s : Int) : Prop := c.t0 ≤ s ∧ s ≤ c.t1 ∧ c.isB s = true
+
+/-- `dt2int[s]` raises `KeyError` exactly when `s` is not a business day of the range (and never anything else) -/
+theorem clockOf_error_iff (c : Cal) (s : Int) : clockOfT c.bdays s = .error .key ↔ ¬ InTable c s := by
+  constructor
+  · intro h hs
+    rw [clockOf_bday c s hs.1 hs.2.1 hs.2.2] at h; cases h
+  · intro h
+    cases hc : clockOfT c.bdays s with
+    | ok i => obtain ⟨a, b, d, _⟩ := clockOf_ok c s i hc; exact absurd ⟨a, b, d⟩ h
+    | error e => unfold clockOfT at hc; split at hc <;> cases hc; rfl
+
+/-- the CONVERSE of `drange_1b` (reviews t3 §5.4, v3 §C05-3.2): when an adjusted endpoint is not a business day of the
+calendar's range, `Calendar.drange(x, y, 'kb')` raises `KeyError` — for EVERY step `k` (the look-ups come before the step is
+used, also before the `ValueError` of `range(.., 0)`) -/
+theorem drange_kb_error (c : Cal) (x y k : Int)
+    (h : ¬ InTable c (c.adjust c.adj x) ∨ ¬ InTable c (c.adjust c.adj y)) : c.drangeB x y k = .error .key := by
+  unfold Cal.drangeB Cal.drangeBT
+  by_cases hx : InTable c (c.adjust c.adj x)
+  · have hy : ¬ InTable c (c.adjust c.adj y) := by rcases h with h | h; exact absurd hx h; exact h
+    rw [clockOf_bday c _ hx.1 hx.2.1 hx.2.2, (clockOf_error_iff c _).2 hy]; rfl
+  · rw [(clockOf_error_iff c _).2 hx]; rfl
+
+theorem drange_1b_error (c : Cal) (x y : Int)
+    (h : ¬ InTable c (c.adjust c.adj x) ∨ ¬ InTable c (c.adjust c.adj y)) : c.drangeB x y 1 = .error .key :=
+  drange_kb_error c x y 1 h
+
+/-- `drange_1b` and its converse together: the call answers exactly when both adjusted endpoints are business days of the range;
+then the answer is the list of `drange_1b`, otherwise `KeyError` -/
+theorem drange_1b_ok_iff (c : Cal) (x y : Int) :
+    (∃ l, c.drangeB x y 1 = .ok l) ↔ InTable c (c.adjust c.adj x) ∧ InTable c (c.adjust c.adj y) := by
+  constructor
+  · intro ⟨l, hl⟩
+    by_cases hx : InTable c (c.adjust c.adj x)
+    · by_cases hy : InTable c (c.adjust c.adj y)
+      · exact ⟨hx, hy⟩
+      · rw [drange_1b_error c x y (Or.inr hy)] at hl; cases hl
+    · rw [drange_1b_error c x y (Or.inl hx)] at hl; cases hl
+  · intro ⟨hx, hy⟩
+    exact ⟨_, drange_1b c x y hx hy⟩
+
+-- both sides occur in `jan`: Thu 6 Feb is in the table; a day after the range's end adjusts to a day beyond the range: KeyError
+example : InTable jan (jan.adjust jan.adj 737461) ∧ ¬ InTable jan (jan.adjust jan.adj 737475) ∧
+    jan.drangeB 737461 737475 1 = .error .key := by
+  refine ⟨by unfold InTable; decide, by unfold InTable; decide, by rfl⟩
+
+/-- `Calendar.clock(t)` — read literally in the model (`dt2int.get(t, dt2int[adjust(t)])`, default evaluated first) — is the table
+position of `adjust(t)`: the `.get` on `t` itself never changes the answer, because a table key is its own adjustment -/
+theorem clock_eq (c : Cal) (t : Int) : c.clock t = clockOfT c.bdays (c.adjust c.adj t) := by
+  unfold Cal.clock Cal.clockT
+  cases hd : clockOfT c.bdays (c.adjust c.adj t) with
+  | error e => rfl
+  | ok d =>
+    cases hi : idxIn t c.bdays with
+    | none => rfl
+    | some i =>
+      have hm := idxIn_some_mem t _ i hi
+      rw [mem_bdays] at hm
+      have hfix := Calendar.adjust_bday c c.adj t hm.1 hm.2.1 hm.2.2
+      rw [hfix] at hd
+      unfold clockOfT at hd
+      rw [hi] at hd
+      cases hd; rfl
+
+/-- by day-by-day counting: `clock(t)` is the NUMBER OF BUSINESS DAYS of the range strictly before `adjust(t)` -/
+theorem clock_counts (c : Cal) (t : Int) (h : InTable c (c.adjust c.adj t)) :
+    c.clock t = .ok (cnt c c.t0 (c.adjust c.adj t - 1)) := by
+  rw [clock_eq, clockOf_bday c _ h.1 h.2.1 h.2.2]; rfl
+
+/-- `clock` answers exactly when `adjust(t)` is a business day of the range; otherwise `KeyError` -/
+theorem clock_ok_iff (c : Cal) (t : Int) : (∃ i, c.clock t = .ok i) ↔ InTable c (c.adjust c.adj t) := by
+  constructor
+  · intro ⟨i, hi⟩
+    rw [clock_eq] at hi
+    obtain ⟨a, b, d, _⟩ := clockOf_ok c _ i hi
+    exact ⟨a, b, d⟩
+  · intro h; exact ⟨_, clock_counts c t h⟩
+
+theorem clock_error (c : Cal) (t : Int) (h : ¬ InTable c (c.adjust c.adj t)) : c.clock t = .error .key := by
+  rw [clock_eq]; exact (clockOf_error_iff c _).2 h
+
+/-- `int2dt[clock(t)] == adjust(t)`: the clock is the inverse of the table -/
+theorem clock_inverse (c : Cal) (t : Int) (i : Nat) (h : c.clock t = .ok i) : c.bdays[i]? = some (c.adjust c.adj t) := by
+  rw [clock_eq] at h
+  exact clockOfT_getElem? _ _ _ h
+
+/-- the law `clock(add(t, n)) - clock(t) == n` (harness `law-clock`), for every `n` inside the guard -/
+theorem clock_add (c : Cal) (t n : Int) (h : InRange c (c.adjust c.adj t) n) :
+    ∃ r i j, c.add c.adj t n = .ok r ∧ c.clock t = .ok i ∧ c.clock r = .ok j ∧ (j : Int) - (i : Int) = n := by
+  obtain ⟨r, hr, rB, r0, r1, rK⟩ := add_spec c c.adj t n h
+  refine ⟨r, K c (c.adjust c.adj t), K c r, hr, ?_, ?_, by omega⟩
+  · rw [clock_eq, clockOf_bday c _ h.1 h.2.1 h.2.2.1]
+  · rw [clock_eq, Calendar.adjust_bday c c.adj r r0 r1 rB, clockOf_bday c r r0 r1 rB]
+
+/-- the clock is strictly increasing along the business days of the range -/
+theorem clock_strict_mono (c : Cal) (a b : Int) (ha : InTable c a) (hb : InTable c b) (hab : a < b) :
+    ∃ i j, c.clock a = .ok i ∧ c.clock b = .ok j ∧ i < j := by
+  refine ⟨K c a, K c b, ?_, ?_, K_lt c a b ha.1 hab ha.2.2⟩
+  · rw [clock_eq, Calendar.adjust_bday c c.adj a ha.1 ha.2.1 ha.2.2, clockOf_bday c a ha.1 ha.2.1 ha.2.2]
+  · rw [clock_eq, Calendar.adjust_bday c c.adj b hb.1 hb.2.1 hb.2.2, clockOf_bday c b hb.1 hb.2.1 hb.2.2]
+
+-- Fri 31 Jan 2020 (a holiday of `jan`) adjusts to Thu 30 Jan, the 21st business day of the range (position 20)
+example : jan.clock 737455 = .ok 20 ∧ jan.clock 737454 = .ok 20 ∧ jan.clock 737458 = .ok 21 ∧ jan.clock 737480 = .error .key :=
+  ⟨by rfl, by rfl, by rfl, by rfl⟩
+
+/-! ### round k3: registry histories with TABLE-BUILDING operations (reviews v3 §C05.1, notes j3 "NOT done")
+
+`registry_last` quantifies over `calendar(k, args)` calls.  The registry holds OBJECTS whose business-day table is built once, by the
+first `add(|n| ≥ 2)` / `bdays` / `drange` / `clock`, and kept (`CalObj`, `ObjRegistry`).  The history below may contain any such operation,
+on any key, between the calls. -/
+
+/-- the invariant of every history that does not re-register `k`: the object under `k` has the registered configuration and its
+table — built or not — is not stale -/
+theorem registry_object_invariant (month : Int → Int) (k : String) (c : Cal) (ops : List RegOp)
+    (hops : ∀ op ∈ ops, ∀ a', op = .call k a' → a'.isDefault = true) :
+    ∀ (r0 : ObjRegistry), (∃ o, r0.get? k = some o ∧ o.cal = c ∧ o.WF) →
+      ∃ o, (runObj month r0 ops).get? k = some o ∧ o.cal = c ∧ o.WF := by
+  induction ops with
+  | nil => intro r0 h; exact h
+  | cons op ops ih =>
+    intro r0 ⟨o, hg, hc, hw⟩
+    simp only [runObj, List.foldl_cons]
+    apply ih (fun q hq => hops q (List.mem_cons_of_mem _ hq))
+    cases op with
+    | call k' a' =>
+      refine ⟨o, ?_, hc, hw⟩
+      exact ocalendar_frame month r0 k k' a' o hg (fun e => hops _ (List.mem_cons_self ..) a' (by rw [e]))
+    | use k' u =>
+      simp only [ObjRegistry.step, ObjRegistry.useAt]
+      by_cases e : k' = k
+      · subst e
+        rw [ocalendar_fetch month r0 k' o hg]
+        exact ⟨(o.use u).1, oget?_set_same _ _ _, by rw [CalObj.use_cal, hc], CalObj.use_wf o hw u⟩
+      · refine ⟨o, ?_, hc, hw⟩
+        rw [oget?_set_other _ k k' _ e]
+        exact ocalendar_frame month r0 k k' _ o hg (fun e' => absurd e' e)
+
+/-- **a calendar fetched by key reflects what it was last registered with — through every operation, after any history of calls AND
+table-building operations**: after `calendar(k, args)` registered the key, let the history contain fetches, registrations of other keys
+and `is_bday / adjust / add / bdays / drange / clock` on the calendars fetched under ANY key (`k` included: its table gets built on the
+way).  Then `calendar(k)` is the calendar built from `args`, and every operation on it answers what that calendar answers from its
+own table — no table built for an earlier registration or another key is ever read. -/
+theorem registry_last_objects (month : Int → Int) (r : ObjRegistry) (k : String) (a : CalArgs)
+    (hreg : a.isDefault = false ∨ r.get? k = none)
+    (ops : List RegOp) (hops : ∀ op ∈ ops, ∀ a', op = .call k a' → a'.isDefault = true) (u : Use) :
+    let r' := runObj month ((r.calendar month k a).1) ops
+    (r'.calendar month k ⟨none, none, none, none⟩).2.cal = mkCal month a ∧
+    (r'.calendar month k ⟨none, none, none, none⟩).2.cal.hol = a.hol.getD [] ∧
+    (r'.useAt month k u).2 = (mkCal month a).use u := by
+  have h0 : ∃ o, ((r.calendar month k a).1).get? k = some o ∧ o.cal = mkCal month a ∧ o.WF := by
+    refine ⟨CalObj.fresh (mkCal month a), ?_, rfl, CalObj.fresh_wf _⟩
+    unfold ObjRegistry.calendar
+    rcases hreg with h | h
+    · cases hg : r.get? k <;> simp [h, oget?_set_same]
+    · simp [h, oget?_set_same]
+  obtain ⟨o, hg, hc, hw⟩ := registry_object_invariant month k (mkCal month a) ops hops _ h0
+  simp only
+  rw [ocalendar_fetch month _ k o hg]
+  refine ⟨hc, by rw [hc]; rfl, ?_⟩
+  simp only [ObjRegistry.useAt]
+  rw [ocalendar_fetch month _ k o hg, CalObj.use_ans o hw u, hc]
+
+/-- the hypotheses are satisfiable on a history with table-building operations: register UK with a holiday, build its table (`add 2`),
+register US, use it, fetch UK -/
+example : (CalArgs.mk (some [737455]) none none none).isDefault = false ∧
+    ∀ op ∈ [RegOp.use "UK" (.add .m 737455 2), .call "US" (CalArgs.mk (some []) none none none), .use "US" (.bdays .m 737455 737460),
+            .call "UK" (CalArgs.mk none none none none), .use "UK" (.clock 737455)],
+      ∀ a', op = .call "UK" a' → a'.isDefault = true := by
+  refine ⟨by decide, ?_⟩
+  intro op hop a' h
+  simp only [List.mem_cons, List.not_mem_nil, or_false] at hop
+  rcases hop with rfl | rfl | rfl | rfl | rfl
+  · cases h
+  · injection h with h1 h2; exact absurd h1 (by decide)
+  · cases h
+  · injection h with h1 h2; subst h2; decide
+  · cases h
 
 end Pyg.Props.C05
